@@ -73,6 +73,7 @@ FUNC_VARIANT = z3.Bool("func.jinja_async_variant")
 FUNC_CORO = z3.Bool("func.is_coroutine_function")
 PASS_ARG = z3.Int("func.pass_arg")
 KW_DISJOINT = z3.Bool("explicit keywords disjoint from **dyn_kwargs")
+from pyvc.values import Obj as KIND_SORT_OBJ
 PASS_VALUES = [None, _PassArg.context, _PassArg.eval_context, _PassArg.environment]
 
 CMP_NAMES = {"eq": "eq", "ne": "ne", "gt": "gt", "gteq": "ge", "lt": "lt", "lteq": "le", "in": "in", "notin": "notin"}
@@ -130,6 +131,16 @@ def install_common(I, owner=None):
         return [(st, Sym(FUNC_CORO, "bool"))]
 
     I.specs[("fn", id(inspect.iscoroutinefunction))] = iscoro
+
+    isfinite_fn = z3.Function("math.isfinite", KIND_SORT_OBJ, z3.BoolSort())
+
+    def isfinite(I_, st, args, kwargs, node):
+        a = args[0]
+        if isinstance(a, Sym) and a.k == "obj":
+            return [(st, Sym(isfinite_fn(a.t), "bool"))]
+        return [(st, math.isfinite(a))]
+
+    I.specs[("fn", id(math.isfinite))] = isfinite
 
     base_getattr_obj = I.specs.get("getattr_obj")
 
@@ -593,13 +604,16 @@ class SchemaEval:
         kind, t = self.ph[key]
         if z3.is_app(t) and t.decl().arity() == 0:
             return ("field", t.decl().name())
-        if z3.is_app(t) and t.decl().name() in ("str2obj",):
+        if z3.is_app(t) and t.decl().name() in ("str2obj", "py_str_obj", "py_repr_obj"):
             return self.placeholder_term(t.children()[0])
         return ("unknown", str(t))
 
     def placeholder_term(self, t):
         if z3.is_app(t) and t.decl().arity() == 0:
             return ("field", t.decl().name())
+        if z3.is_app(t) and t.decl().name() in ("py_str_obj", "py_repr_obj", "py_repr_str", "str2obj"):
+            # the literal text of a value stands for the value (C08.const.roundtrip checks that on the real visit_Const)
+            return self.placeholder_term(t.children()[0])
         return ("unknown", str(t))
 
     def ev(self, n):
@@ -715,6 +729,9 @@ class SchemaEval:
         if name in ("environment.getattr", "environment.getitem", "Markup"):
             return T_call(name, args, kws)
         if name == "identity" and len(args) == 1:
+            return args[0]
+        if name == "float" and len(args) == 1 and args[0][0] == "field":
+            # visit_Const writes a non-finite float v as float('<str(v)>'): that is v (C08.const.roundtrip evaluates the real text)
             return args[0]
         if name == "str_join" and len(args) == 1 and args[0][0] == "tuple":
             return ("concat", tuple(T_call("py.str", [x]) for x in args[0][1]))
@@ -987,6 +1004,27 @@ class Fold(Task):
                                                    "schema_text": sc.describe()[:300] if sc else None}))
             else:
                 out.append(Res(nm, "discharged", "pyvc-path", time.time() - t1, f"{matched} schema instantiations agree", self.kind))
+        if self.cls_name == "Concat":
+            # in a volatile frame as_const refuses (checked above), so the emitted code decides: which join runs must follow the
+            # RUN-TIME autoescape flag, like it follows the compile-time flag in a non-volatile frame
+            for j, sc in enumerate(scs):
+                if sc.outcome == "raise" or not sc.holds(VOLATILE):
+                    continue
+                for txt, ph in sc.texts():
+                    tree = emit.parse_expr(txt)
+                    f = tree.func if isinstance(tree, ast.Call) else None
+                    ok = (isinstance(f, ast.IfExp) and ast.unparse(f.test) == "context.eval_ctx.autoescape" and isinstance(f.body, ast.Name) and f.body.id == "markup_join"
+                          and isinstance(f.orelse, ast.Name) and f.orelse.id == "str_join")
+                    nm = f"{self.base}.volatile_schema#p{self.shape_no * 1000 + j}"
+                    if ok:
+                        out.append(Res(nm, "discharged", "pyvc-path", 0, "", self.kind))
+                    else:
+                        sel = ast.unparse(f.test) if isinstance(f, ast.IfExp) else (ast.unparse(f) if f is not None else txt[:40])
+                        out.append(Res(nm, "refuted", "pyvc-path", 0,
+                                       f"in a volatile frame the join function is selected by `{sel}`, not by the run-time flag context.eval_ctx.autoescape "
+                                       f"(generated code never sets eval_ctx.volatile, so str_join always runs and Markup operands are escaped): `{txt[:120]}`", self.kind,
+                                       witness={"class": "Concat", "shape": self.shape, "clause": "volatile_schema", "selector": sel}))
+                    break
         if n_ret == 0 and self.cls_name not in ("Filter",) :
             out.append(Res(self.name + ".paths", "error", "pyvc", 0, "as_const has no returning path", self.kind))
         return out
@@ -995,13 +1033,15 @@ class Fold(Task):
         w = res.witness or {}
         if w.get("clause") == "raises":
             return f"{w.get('class')}:raises:{w.get('exception')}"
+        if w.get("clause") == "volatile_schema":
+            return f"Concat:volatile-selector:{w.get('selector')}"
         return f"{w.get('class')}:{w.get('as_const')}!={w.get('schema')}"
 
     def replay(self, w):
-        return native_family_replay(w.get("class"))
+        return native_family_replay(w.get("class"), include_known=w.get("clause") == "volatile_schema")
 
 
-def native_family_replay(cls_name):
+def native_family_replay(cls_name, include_known=False):
     return (None, "native family not loaded")
 
 
